@@ -1334,3 +1334,37 @@ Proof.
   step_cases Hs; cbn [at_]; try (split; [do 5 eexists; reflexivity|reflexivity]; fail);
     exfalso; repeat (rewrite ?existsb_app, ?Q in He; cbn [existsb is_win_ev ek E app] in He); cbn in He; discriminate.
 Qed.
+
+(* ====================================================================== *)
+(* J. termination, existence form                                          *)
+(* ====================================================================== *)
+From GV Require Import Progress.
+
+(* no step of this class depends on the scheduler's choice: every choice is a work-choice *)
+Definition any_choice (c : nat) : bool := true.
+Lemma tstep_choice t c g l : tstep t c g l = tstep t 0 g l.
+Proof. reflexivity. Qed.
+Lemma settled_quiescent s : settled glob loc tstep any_choice s -> quiescentS s.
+Proof. intros H t c _. apply H. reflexivity. Qed.
+Lemma pick_move s : (exists t c, any_choice c = true /\ enabledS s t c) \/ settled glob loc tstep any_choice s.
+Proof.
+  destruct (enabled_choice_dec glob loc tstep s 0) as [[t He]|Hn].
+  - left. exists t, 0%nat. split; [reflexivity|exact He].
+  - right. intros t c _ [l [r [Hl Hs]]]. apply (Hn t). exists l, r. split; [exact Hl|].
+    rewrite <- Hs. symmetry. apply tstep_choice.
+Qed.
+
+(* from every reachable state some schedule of at most mu(s) steps finishes every thread *)
+Lemma eventually_finishes th progs s : R th progs s ->
+  exists sc, sched_ok any_choice sc /\ (length sc <= mu (total_ins progs) s)%nat /\
+             all_fin glob loc fin (run glob loc tstep s sc) = true.
+Proof.
+  intros HR.
+  destruct (settles glob loc tstep (mu (total_ins progs)) (Inv2 (total_ins progs)) (Inv2_step _) any_choice
+              (fun s0 t c HI _ He => mu_dec _ s0 t c HI He) pick_move s (R_inv2 _ _ _ HR))
+    as [sc [Hok [Hlen Hset]]].
+  exists sc. repeat split; auto.
+  apply (quiescent_all_finished th progs).
+  - destruct HR as [sc0 ->]. exists (sc0 ++ sc). symmetry. apply run_app.
+  - apply settled_quiescent. exact Hset.
+Qed.
